@@ -39,29 +39,31 @@ def private_callees(f) -> set:
     import ast as _ast
 
     out = set()
+    bound = {a.arg for a in _ast.walk(f.node) if isinstance(a, _ast.arg)} | {n.id for n in _ast.walk(f.node) if isinstance(n, _ast.Name) and isinstance(n.ctx, _ast.Store)}
     for c in _ast.walk(f.node):
-        if not isinstance(c, _ast.Call):
-            continue
-        fn = c.func
         name = None
-        if isinstance(fn, _ast.Attribute) and isinstance(fn.value, _ast.Name) and (fn.value.id in ("self", "cls") or fn.value.id[:1].isupper()):
-            name = fn.attr
-        elif isinstance(fn, _ast.Name):
-            name = fn.id
+        # called, or merely referenced (a handler table, a bound method handed on): `self._x`, `Cls._x`, bare `_x`
+        if isinstance(c, _ast.Attribute) and isinstance(c.ctx, _ast.Load) and isinstance(c.value, _ast.Name) and (c.value.id in ("self", "cls") or c.value.id[:1].isupper()):
+            name = c.attr
+        elif isinstance(c, _ast.Name) and isinstance(c.ctx, _ast.Load) and c.id not in bound:
+            name = c.id
         if name and name.startswith("_") and not name.startswith("__"):
             out.add(name)
     return out
 
 
+def nested_defs(f) -> int:
+    """Number of nested function definitions and lambdas (closures a dispatch or a loop body may have moved into)."""
+    import ast as _ast
+
+    return sum(1 for n in _ast.walk(f.node) if isinstance(n, (_ast.FunctionDef, _ast.AsyncFunctionDef, _ast.Lambda)) and n is not f.node)
+
+
 _KNOWN_HELPERS = None
 
 
-def new_helpers_of(function: str) -> list:
-    """Private helpers called by `function` in the analysed tree that it did not call in the pinned tree
-    (tables/known_helpers.json): logic the rules anchored in `function` may have been extracted into."""
+def _known_table() -> dict:
     global _KNOWN_HELPERS
-    if _INDEX is None or not function:
-        return []
     if _KNOWN_HELPERS is None:
         import json
         import os
@@ -72,13 +74,70 @@ def new_helpers_of(function: str) -> list:
                 _KNOWN_HELPERS = json.load(fh)
         except OSError:
             _KNOWN_HELPERS = {}
+        _KNOWN_HELPERS.setdefault("functions", {})
+        _KNOWN_HELPERS.setdefault("all", [])
+    return _KNOWN_HELPERS
+
+
+def new_helpers_of(function: str) -> list:
+    """Private helpers called by `function` in the analysed tree that it did not call in the pinned tree
+    (tables/known_helpers.json): logic the rules anchored in `function` may have been extracted into."""
+    if _INDEX is None or not function:
+        return []
     f = getattr(_INDEX, "funcs", {}).get(function)
     if f is None:
         return []
-    known = set(_KNOWN_HELPERS.get(function, ()))
-    # only helpers that exist in the analysed tree and did not exist (under that name, called from here) before
-    defined = {g.node.name for g in getattr(_INDEX, "funcs", {}).values()}
-    return sorted(n for n in private_callees(f) if n not in known and n in defined)
+    entry = _known_table()["functions"].get(function) or {}
+    known = set(entry.get("refs", ()))
+    # only private symbols that are defined in the analysed tree (a function / method, a module-level or class-level
+    # name) and were not referenced from here in the pinned tree
+    out = sorted(n for n in private_callees(f) if n not in known and n in _defined_private())
+    extra = nested_defs(f) - int(entry.get("nested", 0))
+    if extra > 0:
+        out.append(f"<{extra} new nested function(s) / lambda(s)>")
+    return out
+
+
+_DEFINED = None
+
+
+def _defined_private() -> set:
+    global _DEFINED
+    if _DEFINED is None or _DEFINED[0] is not _INDEX:
+        import ast as _ast
+
+        names = {g.node.name for g in getattr(_INDEX, "funcs", {}).values()}
+        for m in getattr(_INDEX, "modules", {}).values():
+            names |= set(getattr(m, "assigns", {}) or {})
+        for c in (_INDEX.classes.values() if isinstance(getattr(_INDEX, "classes", None), dict) else []):
+            for st in c.node.body:
+                for t in st.targets if isinstance(st, _ast.Assign) else [st.target] if isinstance(st, _ast.AnnAssign) else []:
+                    if isinstance(t, _ast.Name):
+                        names.add(t.id)
+        _DEFINED = (_INDEX, {n for n in names if n.startswith("_") and not n.startswith("__")})
+    return _DEFINED[1]
+
+
+def restructured_functions(files) -> list:
+    """Functions of the given repository files that reference a private symbol, or contain a nested function, they did
+    not in the pinned tree, and private functions of those files that the pinned tree does not have: evidence that
+    the anchored code was restructured (extract method, handler tables, closures)."""
+    out = []
+    if _INDEX is None:
+        return out
+    everything = set(_known_table()["all"])
+    if not everything:
+        return out
+    for q, g in getattr(_INDEX, "funcs", {}).items():
+        if not any(g.file == a or (a.endswith("/") and g.file.startswith(a)) for a in files):
+            continue
+        if q not in everything and g.node.name.startswith("_") and not g.node.name.startswith("__"):
+            out.append(f"{g.node.name} (new)")
+        else:
+            moved = new_helpers_of(q)
+            if moved:
+                out.append(f"{g.node.name} -> {moved}")
+    return out
 
 
 def locals_of(function: str):
@@ -172,6 +231,15 @@ class Report:
         # pinned tree, what the rule looks for may live in that helper, which the rule does not read. Unless the rule
         # says it has followed helpers itself (strict=True), the verdict is `inconclusive`, never a violation — the
         # benign direction for everything unresolved.
+        if not strict and function and _INDEX is not None:
+            table = _known_table()
+            last = function.rsplit(".", 1)[-1]
+            if table["all"] and function not in table["all"] and function in getattr(_INDEX, "funcs", {}) and last.startswith("_") and not last.startswith("__"):
+                # a private function the pinned tree does not have: a sweep rule sees it without the context of its
+                # callers (what its parameters are bound to), so its verdict there is not a decision
+                self.obligations.append(Obligation(rule, instance, where, True, construct, f"not decided: {last} is a new private helper; the rule reads it without the context of its call sites", function, inconclusive=True))
+                self.counters["undecided_after_extract_method"] = self.counters.get("undecided_after_extract_method", 0) + 1
+                return
         if not strict:
             moved = new_helpers_of(function)
             if moved:
